@@ -17,6 +17,12 @@ C = {
 C['C16'] = dict(engine='CycleMaps', ref='4/C16', technique='TLA+ spec (CycleMaps/CycleMapsDef) model-checked with TLC; every enumerated structure pushed through all 18 real map_*/project_* functions and validated against the spec by TLC',
    text='TLC checks totality, round trips, None-exactly, maximal-run chains and the projection theorems of the set-theoretic specification on every selection vector of up to 12 cycles combined with cycle-length compositions and unlabelled gaps; the harness enumerates exactly the same structures (count cross-checked against TLC), calls every map and projection of the real code on every valid index, and TLC validates each record field by field. Exhaustive on the stated domain; random larger instances sampled.',
    note=TRUST + '; map_sample_to_cycle may return None or -1 for an unlabelled sample (both are read as "none")')
+C['C10'] = dict(engine='Spectra', ref='4/C10', technique='TLA+ spec (Spectra/SpectraDef) model-checked with TLC; the enumerated edge-hitting grid and random float instances pushed through hilberthuang (dense+sparse) and hilberthuang_1d and validated against the spec by TLC',
+   text='TLC checks column conservation, one-bin-per-sample and 2-D/1-D marginal agreement of the per-sample histogram specification on every frequency/amplitude array of an edge-hitting grid (negative, below range, on every edge, inside, on the last edge, above); the harness enumerates the same grid (count cross-checked), calls the real dense, sparse and 1-D routines on shared arrays in rotating order, and TLC validates every output matrix entry; random float instances (linear/log bins, values on and one ulp beside edges) are validated with harness-supplied bin indices and fixed-point amplitudes.',
+   note=TRUST + '; on float instances the bin of each sample is computed by the harness with exact comparisons edges[b] <= f < edges[b+1]')
+C['C11'] = dict(engine='Spectra', ref='4/C11', technique='TLA+ spec (Spectra/SpectraDef incl. the index-folding refinement) model-checked with TLC; enumerated grid and float instances pushed through holospectrum (3 squash modes) and validated against the spec by TLC',
+   text='TLC checks that the implementation-shaped index folding (digitize, fold, reshape, trim) refines the per-sample joint histogram for independent carrier/AM bin sets, plus conservation and shape; the harness enumerates the same grid of first/second-level frequency and amplitude arrays, calls holospectrum with squash_time False/sum/mean, and TLC validates the full output and the sum / T*mean relations entry by entry; random float instances with harness-supplied bins.',
+   note=TRUST + '; time-mean is validated as T*mean = sum in fixed point')
 NA = {}
 checks = []
 for i in ids:
